@@ -128,13 +128,16 @@ def mergeInfos (t : Option Kind) (tri : RI) (e : Option (Option Kind × RI)) : O
     else if !tri.definitelyHalted then some ek.asPotential else some ek
   | none, _ => none
 
+/-- the resources `Resources.MergeBranches` iterates over -/
+def mergeKeys (thenI : Invs) (e : Option (Invs × RI)) : List Var :=
+  thenI.map (·.1) ++ (match e with | some p => p.1.map (·.1) | none => [])
+
 /-- `Resources.MergeBranches`: every resource of the branches that has no invalidation in the outer
     scope gets the merged invalidation.  Returns the entries to add to the outer scope. -/
 def mergeInvs (outer thenI : Invs) (tri : RI) (e : Option (Invs × RI)) : Invs :=
-  let keys := thenI.map (·.1) ++ (match e with | some (ei, _) => ei.map (·.1) | none => [])
-  keys.foldl (fun (acc : Invs) x =>
+  (mergeKeys thenI e).foldl (fun (acc : Invs) x =>
     if (outer.get x).isSome || (acc.get x).isSome then acc else
-    match mergeInfos (thenI.get x) tri (e.map fun (ei, eri) => (ei.get x, eri)) with
+    match mergeInfos (thenI.get x) tri (e.map fun p => (p.1.get x, p.2)) with
     | some k => (x, k) :: acc
     | none => acc) []
 
@@ -216,6 +219,10 @@ def St.leave (outer s1 : St) : St :=
   let s2 := s1.lossCheck (s1.scopes.headD [])
   { s2 with scopes := outer.scopes }
 
+/-- the state a branch starts from: a clone of the resources (no local invalidations yet) and the
+    errors reported so far -/
+def St.branch (s : St) (errs : List Err) : St := { s with locals := [], errs := errs }
+
 /-- `visitStatements` / the statement visitors.  A block (`checkBlock`) is
     `St.leave s (check (s.enter []) b)`. -/
 def check (s : St) : Stmt → St
@@ -227,22 +234,22 @@ def check (s : St) : Stmt → St
   | .atom a => checkAtom s a
   | .ite t e =>
     -- checkConditionalBranches
-    let ts := St.leave s (check ({ s with locals := [] }.enter []) t)
-    let es := St.leave s (check ({ s with locals := [], errs := ts.errs }.enter []) e)
+    let ts := St.leave s (check ((s.branch s.errs).enter []) t)
+    let es := St.leave s (check ((s.branch ts.errs).enter []) e)
     { s with ri := s.ri.mergeBranches ts.ri es.ri, errs := es.errs }.merged
       (mergeInvs s.inv ts.inv ts.ri (some (es.inv, es.ri)))
   | .iflet y yoff x xoff t e =>
     let s := s.invalidate x .moveDefinite xoff
     -- then branch: a scope holding `y`, then the block
-    let ts0 := { s with locals := [] }.enter [(y, yoff)]
+    let ts0 := (s.branch s.errs).enter [(y, yoff)]
     let ts := St.leave s (St.leave ts0 (check (ts0.enter []) t))
-    let es := St.leave s (check ({ s with locals := [], errs := ts.errs }.enter []) e)
+    let es := St.leave s (check ((s.branch ts.errs).enter []) e)
     { s with ri := s.ri.mergeBranches ts.ri es.ri, errs := es.errs }.merged
       (mergeInvs s.inv ts.inv ts.ri (some (es.inv, es.ri)))
   | .while b =>
     -- checkPotentiallyUnevaluated ∘ WithLoop
     let saved := s.ri.maybeJumpedLoop
-    let bs := St.leave s (check ({ s with locals := [], loops := s.loops + 1 }.enter []) b)
+    let bs := St.leave s (check ({ s.branch s.errs with loops := s.loops + 1 }.enter []) b)
     let tri : RI :=
       if bs.ri.maybeJumpedLoop then
         { bs.ri with definitelyReturned := false, definitelyHalted := false, definitelyExited := false }
